@@ -13,7 +13,8 @@ P("C21",
              "carries that request's payload, and lower-unit responses are routed to the unique live transaction with that id. "
              "The tick-level model is compared exactly with the real component (all messages drained from Top and Bottom, "
              "generated IDs relative to the generator, progress flag, transaction count) on every run.",
-  level_note="Trusted: Coq kernel + vm_compute; the Go harness (scripted requester and out-of-order lower unit); the hand-written "
+  level_note="c21_model_agreement_implies_property transfers c21_in_order to the observed Top traffic of every case on which the check succeeds. "
+             "Trusted: Coq kernel + vm_compute; the Go harness (scripted requester and out-of-order lower unit); the hand-written "
              "model of middleware.go. Ghost fields (accepted list, released list, per-transaction recorded answers) are never read "
              "by the model functions.",
   assumptions=["no control traffic: the ROB stays Enabled (processControlMsg finds the Control port empty)",
